@@ -46,6 +46,8 @@ Definition leaf_kind_ok (l : leaf) (k : Z) : bool :=
   | _ => negb ((k =? K_NEP18_TYPEERROR) || (k =? K_UFUNC_TYPEERROR))   (* NumPy found no implementation although the model did *)
   end.
 
+Definition is_stub (l : leaf) : bool := match l with LfStub _ => true | _ => false end.
+
 Fixpoint pairs_code (cls op : string) (l : list (leaf * Z * Z)) : Z :=
   match l with
   | [] => 0
@@ -55,7 +57,7 @@ Fixpoint pairs_code (cls op : string) (l : list (leaf * Z * Z)) : Z :=
                  if negb (acc =? 0) then acc
                  else if id =? id' then 0
                  else if leaf_eqb lf lf' then 1                                   (* same computation, different outcome *)
-                 else if negb (clause_no_stub cls op) then 3
+                 else if is_stub lf || is_stub lf' then 3                           (* an abstract stub (returns None) is reached *)
                  else if negb (clause_not_coerced cls op) then 4
                  else if is_exc k && is_exc k' then 5                              (* both raise, different class *)
                  else if (is_exc k && is_error_leaf lf) || (is_exc k' && is_error_leaf lf') then 10   (* the method / attribute does not exist on this format *)
